@@ -225,6 +225,9 @@ def mutations():
            ("del classes[k]", lambda c: c.classes.pop("Base", None)),
            ("classes[k] replaced", lambda c: c.classes.__setitem__("Base", list)),
            ("classes.clear", lambda c: c.classes.clear()),
+           # the documented way of registering a local class
+           ("classes.add(cls)", lambda c: c.classes.add(frozenset)),
+           ("classes.add(cls, name)", lambda c: c.classes.add(set, "Base")),
            ("handlers[k]=v", lambda c: c.serialize_handlers.__setitem__(set, repr)),
            ("del handlers[k]", lambda c: c.serialize_handlers.pop(tuple, None)),
            ("handlers.clear", lambda c: c.serialize_handlers.clear())]
@@ -251,8 +254,14 @@ def copy_independence(ctx):
             if snap_o["classes_id"] == snap_c["classes_id"] or snap_o["handlers_id"] == snap_c["handlers_id"]:
                 ctx.violate("copy-shares-a-table-with-original", {"site": "Config.copy"}, {})
             victim, other, other_snap = (cp, orig, snap_o) if target == "copy" else (orig, cp, snap_c)
-            for name, fn in combo:
-                fn(victim)
+            try:
+                for name, fn in combo:
+                    fn(victim)
+            except Exception as ex:
+                ctx.violate("mutating-the-%s-raised-%s" % (target, type(ex).__name__),
+                            {"site": "Config.copy", "mutated": target, "mutations": [n for n, _ in combo]},
+                            {"raised": ex})
+                continue
             ctx.case(("copy", target, tuple(n for n, _ in combo)))
             ctx.count("judged:copy-independence")
             diff = guards.snapshot_diff(other_snap, guards.config_snapshot(other))
